@@ -38,7 +38,7 @@ type Case struct {
 
 func genPlan(t *rapid.T, pipelined bool) SimPlan {
 	var p SimPlan
-	o := gen.HSOptions{MaxProcs: 5, MaxPad: 2}
+	o := gen.HSOptions{MaxProcs: 5, MaxPad: 2, Replicate: true}
 	if pipelined {
 		o.ExtraALU = []string{"addp", "multp", "addp", "multp"}
 	}
